@@ -165,6 +165,18 @@ P_C12_DeletedByPolicy == (AtEnd /\ ~HasHookFault(esum) /\ ~SubOp(esum)) => C12_D
 P_C12_PreHookGate   == (AtEnd /\ ~HasHookFault(esum)) => C12_PreHookGate(esum.log, DefsFor(esum, EPre, S), ManIdsFor(esum, EPre), esum.u)
 P_C12_PostHookFails == AtEnd => C12_PostHookFails(esum.log, DefsFor(esum, EPre, S), esum.ok)
 P_C12_NotInManifest == C12_NotInManifest(S.store)
+
+\* C09: every record is created where none existed; an operation that created no revision failed
+\* without writing to a release resource; at quiescence at most one revision is deployed
+ResWriteM(x) == x.kind = "res" /\ x.verb \in {"POST", "PUT", "PATCH", "DELETE"}
+CurRev == Trace[l].rev
+P_C09_CreateFresh ==
+  (IsCall /\ lab.kind = "store" /\ lab.verb = "create" /\ lab.ok) =>
+     (CurRev \in MonRev /\ B.store[CurRev].st = "none" /\ S.store[CurRev].st # "none")
+P_C09_LoserClean ==
+  (AtEnd /\ esum.u.kind \in {"install", "upgrade"} /\ ~esum.u.dry /\ esum.crs = {}) =>
+     (~esum.ok /\ \A i \in DOMAIN esum.log : ~ResWriteM(esum.log[i]))
+P_C09_Quiescent == (\A p \in MonProc : ~sum[p].active) => C01_AtMostOneDeployed(S.store)
 P_C12_Disabled      == AtEnd => C12_Disabled(esum.log, DOMAIN DefsFor(esum, EPre, S), esum.u)
 
 -----------------------------------------------------------------------------
@@ -196,7 +208,10 @@ Checks == <<
   [n |-> "C12_PreHookGate",   v |-> P_C12_PreHookGate],
   [n |-> "C12_PostHookFails", v |-> P_C12_PostHookFails],
   [n |-> "C12_NotInManifest", v |-> P_C12_NotInManifest],
-  [n |-> "C12_Disabled",      v |-> P_C12_Disabled] >>
+  [n |-> "C12_Disabled",      v |-> P_C12_Disabled],
+  [n |-> "C09_CreateFresh",   v |-> P_C09_CreateFresh],
+  [n |-> "C09_LoserClean",    v |-> P_C09_LoserClean],
+  [n |-> "C09_Quiescent",     v |-> P_C09_Quiescent] >>
 
 \* (IF, not \/: in an action TLC would enumerate both disjuncts as separate successors)
 Report == \A i \in DOMAIN Checks : IF Checks[i].v THEN TRUE ELSE PrintT(<<"MONVIOL", l, Checks[i].n>>)
